@@ -35,6 +35,8 @@ KeysFor(B, r) ==
       gs == IF WithGrammar THEN GrammarReasons(B, s, o.inline) ELSE {}
   IN {(IF B = "sqlite" THEN "C07/" ELSE "C08/") \o B \o "/" \o g : g \in gs \ {"?unsupported"}}
      \cup {"C01/" \o B \o "/" \o x : x \in PlaceholderReasons(B, Tp, Len(o.values))}
+     \* the dynamic entry point is judged on its own text and values as well (not only by comparison with build)
+     \cup {"C01/" \o B \o "/build_any:" \o x : x \in PlaceholderReasons(B, Lex(B, o.sql_any), Len(o.values_any))}
      \cup (IF o.values = want THEN {} ELSE {"C01/" \o B \o "/bound_values_differ_from_given_order"})
      \cup {"C01/" \o B \o "/" \o x : x \in EventReasons(o.events, 1, 0, B = "pg")}
      \cup (IF EventsText(o.events, 1) = o.sql /\ EventsValues(o.events) = o.values /\ o.events_sql = o.sql /\ o.events_values = o.values
